@@ -3,6 +3,7 @@ import sys, os, math
 sys.path.insert(0, os.path.dirname(__file__))
 from common import *
 
+import os
 def gen_polygon(rng, kind, n):
     """integer-coordinate polygons (vertex list, open); adversarial alignments on a small lattice"""
     if kind == 'star':      # star-shaped, simple
@@ -212,6 +213,48 @@ def run(ctx):
                     ctx.violation('impl-vs-spec:db_polygon', 'db_polygon marks sample %d as %s, model/spec says %d' % (k, sel_i[k] if sel_i else None, sel_m[k]),
                                   {'case': sx_str(c), 'sample': k}); found_input = True
                     break
+    # ---- convex hull (Polygons::createFromDb): translation validation by the checker hull_ok, proved sound in coq/C20/Hull.v
+    nh = (120 if quick else 1500) if os.environ.get('VERIF_C20_HULL') == '1' else 0   # OFF by default: see DESIGN 9.3 (createFromDb does not terminate on corpus/C20_hull_nontermination.sx)
+    hcases = []
+    for i in range(nh):
+        r = rng.random(); n = rng.choice([1, 2, 3, 4, 5, 8, 12, 25] + ([] if quick else [60, 150]))
+        if r < .35:     # lattice points (many collinear triples, ties for the leftmost point)
+            w = rng.choice([2, 3, 5, 9]); P0 = [(rng.randint(0, w), rng.randint(0, w)) for _ in range(n)]; style = 'lattice'
+        elif r < .5:    # all on one line
+            a, b = rng.randint(-3, 3), rng.randint(-3, 3); P0 = [(t * a, t * b) for t in [rng.randint(-6, 6) for _ in range(n)]]; style = 'collinear'
+        elif r < .7:    # points of a convex polygon plus interior points and duplicates
+            base = gen_polygon(rng, 'rect', 4) + [(rng.randint(-5, 5), rng.randint(-5, 5)) for _ in range(n)]
+            P0 = base + [rng.choice(base) for _ in range(rng.randint(0, 3))]; rng.shuffle(P0); style = 'rect+interior+dups'
+        else:
+            P0 = [(Fraction(rng.randint(-200, 200), 8), Fraction(rng.randint(-200, 200), 8)) for _ in range(n)]; style = 'dyadic-random'
+        s_ = rng.choice([1, 1, Fraction(1, 4), 7]); tx = rng.choice([0, 0, 1000, Fraction(-37, 8)])
+        P1 = [(Fraction(x) * s_ + tx, Fraction(y) * s_) for x, y in P0]
+        if not P1: continue
+        hcases.append([4, [P(q) for q in P1]]); ctx.dist('hull_' + style); ctx.dist('hull_n_%d' % (10 * (len(P1) // 10)))
+    hf = write_cases(ctx, 'hull', hcases)
+    rc_h, himpl = run_impl(ctx, exe, hf)
+    vcases = []; vmap = []
+    for i, c in enumerate(hcases):
+        hi = himpl[i] if i < len(himpl) else None
+        ctx.count(sx_str(c))
+        if hi is None:
+            ctx.violation('crash:createFromDb', 'impl produced no answer (crash) on hull case %d' % i, {'case': sx_str(c)}); found_input = True; continue
+        if hi == [-1] or not isinstance(hi[0], list):
+            ctx.violation('impl-vs-spec:createFromDb:no-hull', 'createFromDb returned no polygon for %d data points' % len(c[1]), {'case': sx_str(c)}); found_input = True; continue
+        if any(k < 0 for k in hi[0]):
+            ctx.violation('impl-vs-spec:createFromDb:vertex-not-a-data-point', 'a vertex of the hull is not one of the data points', {'case': sx_str(c), 'impl': hi[0]}); found_input = True; continue
+        vcases.append([5, c[1], hi[0]]); vmap.append(i)
+    if vcases:
+        vf = write_cases(ctx, 'hullcheck', vcases)
+        rc_v, vres = run_model(ctx, runner, vf)
+        if len(vres) != len(vcases):
+            print('ERROR: model runner returned %d results for %d hull certificates' % (len(vres), len(vcases))); sys.exit(3)
+        for j, vr in enumerate(vres):
+            ctx.sample({'hull case': sx_str(vcases[j])[:200], 'hull_ok': vr})
+            if not (vr and vr[0] == 1 and vr[1] == 1):
+                ndis += 1
+                ctx.violation('impl-vs-spec:createFromDb:hull-rejected', 'the polygon returned by createFromDb is not a convex ring of data points containing every data point (checker hull_ok, theorem C20_hull_certificate)',
+                              {'case': sx_str(hcases[vmap[j]]), 'hull_ranks': vcases[j][2], 'checker': vr}); found_input = True
     ctx.cov['disagreements'] = ndis
     ctx.cov['rule'] = ('cases = (polygon, query) pairs / polygon sets with vertical limits / db_polygon selections; integer or dyadic coordinates; '
                        'queries placed level with vertices and horizontal edges; distinct = distinct case text; non-trivial = query off the boundary '
